@@ -456,6 +456,8 @@ REAL_OK = {"init": {0, 2}, "rep_open": {0, 2}, "req_open": {0, 2}, "rep_recvtime
            # after a failure inside the exchange a message may be lost (documented best effort): time-outs, wrong state
            "req_send": {0, 2, 5, 7}, "rep_recv": {0, 2, 5, 7}, "rep_send": {0, 2, 5, 7, 11}, "req_recv": {0, 2, 5, 7, 11, 19, 31},
            "stats": {0, 2}, "req_close": {0}, "rep_close": {0},
+           # "-crowd": five more sockets opened first (id maps grow during the swept calls), queried and closed at the end
+           "extra_open": {0, 2}, "extra_get": {0}, "extra_close": {0},
            # with the failure over, later calls on the same listener and REP socket must work
            "after_open": {0}, "after_dial": {0}, "after_req_send": {0}, "after_rep_recv": {0}, "after_rep_send": {0},
            "after_req_recv": {0}, "after_close": {0}}
@@ -512,7 +514,7 @@ def real_part(tier, seed, v, only=None):
         # with NNG_ECONNREFUSED (6, already allowed for every transport); a message hit by the failure is dropped and the
         # exchange step times out (5, already allowed); a pipe the REP socket could not start is disconnected (DISC) and the
         # request times out.  The after_* steps use a fresh requester and a fresh dialer, so they must all be 0.
-        trans = ["inproc", "ipc", "tcp", "udp", "ipc-nb", "tcp-nb", "udp-nb"] + (["ws"] if os.environ.get("VERIF_C20_REAL_WS") else [])
+        trans = ["inproc", "ipc", "tcp", "udp", "ipc-nb", "tcp-nb", "udp-nb", "inproc-crowd"] + (["ws"] if os.environ.get("VERIF_C20_REAL_WS") else [])
         counts = {}
         for (t, _), rc, lines, err in core.parallel_map(one, [(t, 0) for t in trans]):
             m = re.search(r"allocs=(\d+)", lines[-1]) if lines else None
